@@ -253,6 +253,37 @@ theorem prescribe_honours_motion (hw : WellFormed mobs q.length u.length) (hud :
       fun j hj => u_slot_untouched hw hm hnq (by simp [hu]) (by simp [hu]) j hj, fun j hj => ?_⟩
     rw [udot_slot_pres hw hud hm hnq hd j hj]; simp [MobIn.udotPoolVals, MobIn.locked, hl, hq, hu]
 
+
+/-- **An enabled Motion with method Zero** ("motion at this level and below is always zero"): Position level: q, u, udot
+slots all hold 0; Velocity level: u and udot slots hold 0; Acceleration level: udot slots hold 0. -/
+theorem prescribe_honours_zero_motion (hw : WellFormed mobs q.length u.length) (hud : udot.length = u.length)
+    {m : MobIn K} (hm : m ∈ mobs) (hnq : m.nq ≠ 0) (hl : m.lockLevel = .noLevel)
+    (md : MotionDesc) (hmo : m.motion = some md) (hen : md.disabled = false) (hz : md.method = .zero) :
+    (md.level = .position →
+      (∀ j, j < m.nq → (prescribe mobs q u).1[m.qx + j]? = some 0) ∧
+      (∀ j, j < m.nu → (prescribe mobs q u).2[m.ux + j]? = some 0) ∧
+      (∀ j, j < m.nu → (knownUDot mobs udot)[m.ux + j]? = some 0)) ∧
+    (md.level = .velocity →
+      (∀ j, j < m.nu → (prescribe mobs q u).2[m.ux + j]? = some 0) ∧
+      (∀ j, j < m.nu → (knownUDot mobs udot)[m.ux + j]? = some 0)) ∧
+    (md.level = .acceleration → ∀ j, j < m.nu → (knownUDot mobs udot)[m.ux + j]? = some 0) := by
+  have hmeth : m.methods = calcAllMethods md.level md.method := by
+    simp [MobIn.methods, instanceMethods, hnq, hl, hmo, hen]
+  refine ⟨?_, ?_, ?_⟩
+  · intro hlv
+    have hq : m.methods.q = .zero := by rw [hmeth]; simp [calcAllMethods, hlv, hz]
+    have hu : m.methods.u = .zero := by rw [hmeth]; simp [calcAllMethods, hlv, hz]
+    have hd : m.methods.udot = .zero := by rw [hmeth]; simp [calcAllMethods, hlv, hz]
+    exact ⟨fun j hj => q_slot_zero hw hm hnq hq j hj, fun j hj => u_slot_zero hw hm hnq hu j hj,
+      fun j hj => udot_slot_zero hw hud hm hnq hd j hj⟩
+  · intro hlv
+    have hu : m.methods.u = .zero := by rw [hmeth]; simp [calcAllMethods, hlv, hz]
+    have hd : m.methods.udot = .zero := by rw [hmeth]; simp [calcAllMethods, hlv, hz]
+    exact ⟨fun j hj => u_slot_zero hw hm hnq hu j hj, fun j hj => udot_slot_zero hw hud hm hnq hd j hj⟩
+  · intro hlv
+    have hd : m.methods.udot = .zero := by rw [hmeth]; simp [calcAllMethods, hlv, hz]
+    exact fun j hj => udot_slot_zero hw hud hm hnq hd j hj
+
 /-- **an unlocked mobilizer without an enabled Motion is left alone** by `prescribe` (its q and u slots keep their
 values): "all other q/u untouched" -/
 theorem prescribe_leaves_free_alone (hw : WellFormed mobs q.length u.length)
